@@ -94,6 +94,12 @@ def gen_cases(tier, seed):
             c['R0_form'] = 'list'
             if c['tmax'] != 'inf' and c['tmax'] - c['tmin'] < 1:
                 c['tmax'] = c['tmin'] + 3
+            if sim in simreg.SIR_SIMS + simreg.SIS_SIMS and (j // len(CONT)) % 3 == 1:
+                # index cases left to the library (rho, or the default single node), with or without initially recovered nodes:
+                # the draw comes from the seeded generators only
+                c['rho'] = r.choice([0.15, 0.3])
+                if sim in simreg.SIR_SIMS and not c.get('R0'):
+                    c['R0'] = [c['graph']['n'] - 1]
             batch.append(c)
         out.append({'kind': 'hash', 'batch': batch, 'hashseeds': list(range(3)) if q else [0, 1, 2, 3, 5, 7, 11, 13, 17, 19, 23, 29, 31, 37, 41, 43, 47, 53, 59, 61, 67, 71, 73, 79],
                     'seed': cs})
@@ -315,7 +321,12 @@ def run_hash(case, res):
                      {'hashseeds': [ref_hs, hs], 'digests': [ref[j][:16], results[hs][j][:16]], 'case': c})
                 break
         if str(ref[j]).startswith('EXC:'):
-            viol(res, '%s|hash|exception:%s' % (c['sim'], ref[j][4:]), {'case': c})
+            if c.get('rho') is not None and c.get('R0'):
+                # rho together with initially recovered nodes: rejected by the event-driven family, "no test for consistency" elsewhere
+                # (a drawn index case may be one of the recovered nodes) - the same refusal under every hash seed is reproducible
+                bump(res, 'rho_with_recovered_nodes_refused_consistently')
+            else:
+                viol(res, '%s|hash|exception:%s' % (c['sim'], ref[j][4:]), {'case': c})
     res['nontrivial'] = 'hash:%d' % case['seed']
     res['sample'] = {'kind': 'hash', 'batch_size': len(case['batch']), 'hashseeds': case['hashseeds'], 'first_digest': ref[0][:16]}
     return res
